@@ -32,19 +32,27 @@ BOUNDS = {
              'position of 2 valid headers; one short read (every call index, '
              'every size) over 3 valid headers. v1: TCP4 lines with symbolic '
              'digits (3 length configurations), every single-byte corruption '
-             '(position x 256 values) of 4 valid lines, truncation at every '
-             'position, one short read at every call, 8 arbitrary leading '
-             'bytes through the version detector',
+             '(position x 256 values) of 5 valid lines (incl. TCP6 with a '
+             'zone-id-shaped corruption in reach and an IPv4-mapped address), '
+             'truncation at every position, one short read at every call, 8 '
+             'arbitrary leading bytes through the version detector; two '
+             'connections, the second header read entirely while the first '
+             'waits inside any one of its reads (every read, one short read)',
     'thorough': 'v2 declared length <= 80 and 214..224, two short reads; v1 '
-                'corruptions of 6 valid lines incl. TCP6, two corrupted '
+                'corruptions of 7 valid lines, two corrupted '
                 'bytes on the short TCP4 line, two short reads',
 }
 OUTSIDE = ('IPv6 text is concrete except for one corrupted character '
            '(inet_pton(AF_INET6) is called natively on the concretised text); '
            'headers longer than the stated declared lengths; more than two '
-           'short reads per header')
+           'short reads per header; more than two concurrent connections or '
+           'more than one switch between them')
 STUBS = ['PPSocket.recv_into (in-memory stream; returns min(requested, '
          'available) or the scripted short read; 0 at EOF)',
+         'PPSocket hook: another connection is driven to completion inside '
+         'one recv_into call (a greenlet switch at the only yield point)',
+         'str() of a text with one symbolic character entering stdlib code '
+         '= fork over its feasible values',
          'struct.unpack exact model', 'inet_pton(AF_INET) exact glibc model '
          '(strict dotted quad; ValueError on NUL)', 'inet_ntop = injective '
          'opaque function of the packed bytes', 'int(bytes) exact model',
@@ -63,8 +71,9 @@ INVALID = (None, None)
 V1_LINES = [
     b'PROXY TCP4 1.2.3.4 5.6.7.8 80 25\r\n',
     b'PROXY UNKNOWN\r\n',
-    b'PROXY TCP6 ::1 fe80::2 65535 0\r\n',
+    b'PROXY TCP6 ::1 fe80::2:34 65535 0\r\n',
     b'PROXY TCP4 255.255.255.255 255.255.255.255 65535 65535\r\n',
+    b'PROXY TCP6 ::ffff:10.1.2.3 64:ff9b::a01:203 1 2\r\n',
     b'PROXY UNKNOWN ffff:f...f:ffff ffff:f...f:ffff 65535 65535\r\n',
     b'PROXY TCP6 ffff:ffff:ffff:ffff:ffff:ffff:ffff:ffff '
     b'ffff:ffff:ffff:ffff:ffff:ffff:ffff:ffff 65535 65535\r\n',
@@ -108,7 +117,7 @@ def cells(tier):
     # --- v1
     for cfg in ([1, 1, 1, 1, 1], [3, 2, 1, 3, 5], [2, 3, 3, 1, 4]):
         out.append({'kind': 'v1digits', 'cfg': cfg})
-    nlines = 4 if q else 6
+    nlines = 5 if q else 7
     for i in range(nlines):
         out.append({'kind': 'v1corrupt', 'line': i, 'k': 1, 'via': 'v1'})
         out.append({'kind': 'v1trunc', 'line': i})
@@ -119,6 +128,8 @@ def cells(tier):
         out.append({'kind': 'v1corrupt', 'line': 0, 'k': 2, 'via': 'v1'})
         out.append({'kind': 'v1short', 'line': 0, 'k': 2, 'via': 'v1'})
         out.append({'kind': 'v1short', 'line': 2, 'k': 2, 'via': 'detect'})
+    out.append({'kind': 'v1pair', 'a': 0, 'b': 3, 'via': 'v1'})
+    out.append({'kind': 'v1pair', 'a': 2, 'b': 0, 'via': 'detect'})
     out.append({'kind': 'detect8'})
     return out
 
@@ -134,6 +145,7 @@ class PPSocket(object):
         self.pos = 0
         self.calls = 0
         self.shorts = shorts or {}
+        self.hooks = None
 
     def recv_into(self, view, nbytes=0):
         i = self.calls
@@ -142,6 +154,9 @@ class PPSocket(object):
         r = min(nbytes or len(view), avail, len(view))
         if r <= 0:
             return 0
+        hook = self.hooks.pop(i, None) if self.hooks else None
+        if hook is not None:
+            hook()          # another connection runs while this one waits
         lim = self.shorts.get(i)
         if lim is not None and lim < r:
             r = lim
@@ -503,6 +518,28 @@ def run_v1short(cell):
     ref = ref_v1(base + pay)
     judge(got, ref, {'kind': 'v1short', 'line': cell['line'],
                      'shorts': shorts}, 107)
+
+
+def run_v1pair(cell):
+    """two connections: the second one's whole header is read while the
+    first waits inside one of its reads (any read, by forking)"""
+    la, lb = V1_LINES[cell['a']], V1_LINES[cell['b']]
+    pa = api.sbytes('pa', 2)
+    pb = api.sbytes('pb', 2)
+    ncalls = 2 + (len(la) - 8 + 1)
+    at = api.choice('switch_at', ncalls)
+    shorts = shorts_choice(ncalls, 1, 7)
+    sa = PPSocket(la + pa, shorts)
+    sb = PPSocket(lb + pb)
+    other = {}
+    sa.hooks = {at: lambda: other.__setitem__('got', drive(cell['via'], sb))}
+    got = drive(cell['via'], sa)
+    if 'got' not in other:
+        other['got'] = drive(cell['via'], sb)
+    info = {'kind': 'v1pair', 'a': cell['a'], 'b': cell['b'], 'at': at,
+            'shorts': shorts}
+    judge(got, ref_v1(la + pa), dict(info, conn='first'), 107)
+    judge(other['got'], ref_v1(lb + pb), dict(info, conn='second'), 107)
 
 
 def run_detect8(cell):
